@@ -36,7 +36,9 @@ CLAIMS = {
                  "boundary-off drops exactly the global boundary points (all levels, all boxes); SMT: level-nestedness; Lean: per-point coefficient sum 1 and reproduction at "
                  "grid points for nested families over downward-closed index sets. BOUNDED: the real StandardCombi (d<=3) against nodal unit functions and hierarchical hats."),
     "C03": mixed("PROVED: modify_according_to_levelvec (all integers): selected level stays in [lmin, l], is monotone in the component level and depends only on the own level entry "
-                 "(relational product proofs); Lean lemmas as C02. BOUNDED: the real dimension-wise strategy under an adversarial benefit oracle (d<=3, versions 2,3,6,7,8, "
+                 "(relational product proofs); get_point_coord_for_each_dim (1-2 dimensions, any container sizes, children bookkeeping sliced away mechanically, subtraction value abstract): every "
+                 "returned 1-D list is strictly ascending, contains both domain end points and consists exactly of the interval ends that pass the level test of that dimension; "
+                 "Lean lemmas as C02. BOUNDED: the real dimension-wise strategy under an adversarial benefit oracle (d<=3, versions 2,3,6,7,8, "
                  "rebalancing, boundary on/off): sorted nested 1-D sets, coefficient sum 1, reproduction at grid points after every refinement step."),
     "C04": bounded("No contract within reach decides 'every function of the initial space stays exact' (needs approximation theory through numpy quadrature/interpn). "
                    "BOUNDED (deciding): hierarchical hats of the initial space, random combinations and linear monomials carried as extra output components through adversarial "
